@@ -502,7 +502,40 @@ func indexDischarged(fn *ssa.Function, blk *ssa.BasicBlock, base, index ssa.Valu
 		}
 	}
 	// 2. dominating guard: index < len(base), len(base) > index, i <= len …
+	// field of the receiver the base is loaded from (stack fields of the converters)
+	baseField := func() (ssa.Value, int, bool) {
+		if u, ok := base.(*ssa.UnOp); ok {
+			if fa, ok := u.X.(*ssa.FieldAddr); ok {
+				return fa.X, fa.Field, true
+			}
+		}
+		return nil, 0, false
+	}
 	guard := func(cond ssa.Value, onTrue bool) bool {
+		// wrapper idiom: if recv.nonEmpty() { … recv.stack[len(recv.stack)-1] … } where the
+		// single-block method returns len(recv.stack) > 0 for the same field
+		if call, ok := cond.(*ssa.Call); ok && onTrue && isLenMinusOne(index, base) {
+			recv, fld, isField := baseField()
+			callee := call.Call.StaticCallee()
+			if isField && callee != nil && len(callee.Blocks) == 1 && len(call.Call.Args) == 1 && call.Call.Args[0] == recv && len(callee.Params) == 1 {
+				if ret, ok := callee.Blocks[0].Instrs[len(callee.Blocks[0].Instrs)-1].(*ssa.Return); ok && len(ret.Results) == 1 {
+					if bo, ok := ret.Results[0].(*ssa.BinOp); ok && bo.Op == token.GTR {
+						if k, ok := bo.Y.(*ssa.Const); ok && k.Value != nil && k.Int64() == 0 {
+							if lc, ok := bo.X.(*ssa.Call); ok {
+								if bi, ok := lc.Call.Value.(*ssa.Builtin); ok && bi.Name() == "len" {
+									if u, ok := lc.Call.Args[0].(*ssa.UnOp); ok {
+										if fa, ok := u.X.(*ssa.FieldAddr); ok && fa.Field == fld && fa.X == callee.Params[0] {
+											return true
+										}
+									}
+								}
+							}
+						}
+					}
+				}
+			}
+			return false
+		}
 		bo, ok := cond.(*ssa.BinOp)
 		if !ok {
 			return false
@@ -1061,9 +1094,9 @@ func c13Rec(w *World, r *Result) {
 			}
 			key := "rec:file-loading:" + label
 			if guarded {
-				r.Ok(rule, key, pos, fmt.Sprintf("recursion through file loading (%d functions) is guarded by a membership test on a visited set", len(names)))
+				r.Ok(rule, key, pos, fmt.Sprintf("recursion through file loading (%d functions) is guarded by a membership test on a visited set for the very value handed to the recursive load", len(names)))
 			} else {
-				r.Bad(rule, key, pos, fmt.Sprintf("recursion through file loading (%s …) has no visited set: files that import each other make transpilation recurse without bound (hang / stack exhaustion instead of an error)", strings.Join(names[:min(3, len(names))], ", ")))
+				r.Bad(rule, key, pos, fmt.Sprintf("recursion through file loading (%s …) has no visited set that is consulted, with an exit, for the very path handed to the recursive load: files that import each other make transpilation recurse without bound (hang / stack exhaustion instead of an error)", strings.Join(names[:min(3, len(names))], ", ")))
 			}
 			continue
 		}
@@ -1122,6 +1155,17 @@ func callsFileLoad(f *ssa.Function) bool {
 // test of a map lookup / Contains result whose other branch leaves the function.
 func dominatedByMembershipExit(c *ssa.Call) bool {
 	blk := c.Block()
+	// the value looked up in the visited set is the very value handed to the recursive call:
+	// a path that is rewritten between the test and the call (resolution against a library
+	// directory, normalisation) is not the path that was tested
+	passes := func(v ssa.Value) bool {
+		for _, a := range c.Call.Args {
+			if a == v {
+				return true
+			}
+		}
+		return false
+	}
 	for idom := blk.Idom(); idom != nil; idom = idom.Idom() {
 		if len(idom.Instrs) == 0 {
 			continue
@@ -1138,14 +1182,16 @@ func dominatedByMembershipExit(c *ssa.Call) bool {
 			}
 			switch x := v.(type) {
 			case *ssa.Extract:
-				if _, ok := x.Tuple.(*ssa.Lookup); ok {
+				if l, ok := x.Tuple.(*ssa.Lookup); ok && passes(l.Index) {
 					member = true
 				}
 				walk(x.Tuple, d+1)
 			case *ssa.Lookup:
-				member = true
+				if passes(x.Index) {
+					member = true
+				}
 			case *ssa.Call:
-				if n := calleeName(x); strings.HasPrefix(n, "slices.Contains") || strings.HasPrefix(n, "slices.Index") {
+				if n := calleeName(x); (strings.HasPrefix(n, "slices.Contains") || strings.HasPrefix(n, "slices.Index")) && len(x.Call.Args) == 2 && passes(x.Call.Args[1]) {
 					member = true
 				}
 			case *ssa.UnOp:
